@@ -125,8 +125,11 @@ add("C05",
     "C05_registry_cacheOk (after ANY history of registry creations, __bases__ reassignments at any level, rebuild(), register / unregister / subscribe / "
     "unsubscribe and lookups, every entry of each of the three caches of every registry equals the uncached answer on the current state), "
     "C05_registry_transparent_lookup / _lookupAll / _subscriptions (a lookup answers exactly the uncached computation) and C05_registry_erase (the answer after a "
-    "history = the answer after the same history with every lookup erased; well-formedness of the erased history is proved, not assumed).",
-    "stated_not_proved: refinement World -> ZI.Cache for specification-graph changes and for the generation-checking flavour (I4 generation snapshots). "
+    "history = the answer after the same history with every lookup erased; well-formedness of the erased history is proved, not assumed). The same for the "
+    "generation-checking flavour (ZI/Props/C05Ver.lean): C05_verifying_invariant (generations only grow; a registry whose generation snapshot is current has a fresh "
+    "`ro` and correct caches), C05_verifying_transparent_* (a lookup answers the uncached walk on the state after `_verify`), C05_verifying_spec (= a specification "
+    "walk that reads no cache, `ro` or snapshot field at all), C05_verifying_erase.",
+    "stated_not_proved: refinement World -> ZI.Cache for specification-graph changes (dynamic graph, weak tables): there the abstract machine carries the theorem. "
     "Guard G-provided (the __iro__ of an interface currently used as *provided* is not changed: the code documents the missing invalidation as a TODO and the "
     "statement speaks of required specifications).",
     "Lean 4 proof (cache invariant over histories on an abstract machine) + differential correspondence of the integrated model + never-queried-twin oracle on the real code", "6/C05")
@@ -201,8 +204,9 @@ add("C08",
     "operations and lookups (any cache state, any chain of registries, notifying flavour) `dict(lookupAll(req, p)).get(name)` is exactly `lookup(req, p, name)` — "
     "uncachedLookupAll_get lifts the per-registry statement along `ro` (first registry with an answer wins), the leaves invariant (every name bound once) is "
     "carried over histories with no guard, and the C05 cache invariant removes the caches.",
-    "stated_not_proved: the object-level entry points (queryAdapter, adapter_hook, queryMultiAdapter, subscribers) are defined in the model through lookup / "
-    "lookupAll / subscriptions; their agreement for the generation-checking flavour is evaluated, not proved.",
+    "C08_verifying_lookupAll_agrees: the same for the generation-checking flavour. "
+    "The object-level entry points (queryAdapter, adapter_hook, queryMultiAdapter, subscribers) are defined in the model through lookup / lookupAll / subscriptions.",
+    "stated_not_proved: nothing at registry level; the C entry points' own copies of the cache logic are tied by the correspondence (every entry point cold and warm).",
     "Lean 4 proof (lookupAll = name-indexed family of lookup answers) + differential correspondence + cross-entry-point oracle", "6/C08")
 add("C09",
     "Theorems on the nested containers of the registry model that is compared with the real code (ZI.Registry.Level, Level.update = the create-and-descend walk "
@@ -292,3 +296,40 @@ add("C09",
     "are judged against a flat map after every step.",
     "The specification graph is static in this model. Replaying the enumerations into an EMPTY registry (clones) is judged by the oracle; the theorem covers rebuild().",
     "Lean 4 proof (nested containers refine a flat map, whole-registry read-after-write laws, history invariants, enumerations, rebuild) + differential correspondence + flat-map oracle", "6/C09")
+
+add("C06",
+    "Theorems on the registry model the correspondence validates, BOTH flavours. Notifying AdapterRegistry (ZI/Props/C06.lean): C06_ro — after ANY history of "
+    "registry creations, __bases__ reassignments at any level of the chain, rebuild(), register / unregister / subscribe / unsubscribe and lookups that keeps the base "
+    "graph acyclic, every existing registry's `ro` is exactly ro.ro of the CURRENT base graph (run_inv: ro fresh + the sub-registry table covers every base link; "
+    "setBases_inv: the cascade into sub-registries refreshes every descendant — push_reaches — and nothing else can be stale — roFull_congr). Generation-checking "
+    "VerifyingAdapterRegistry (ZI/Props/C05Ver.lean): C06_ro_verifying — after the `_verify` step that every lookup entry point performs first, the registry's `ro` is "
+    "ro.ro of the current base graph (invariant C05_verifying_invariant: generations only grow, every snapshot entry is <= the current generation, and a registry whose "
+    "snapshot is still current has a fresh `ro`, verifyRo = ro[1:] and correct caches — a mutation or re-basing anywhere above bumps a generation in the snapshot); "
+    "roFull_regs_length (the fuel `len(registries)+1` the model uses inside changed() is enough). C05_verifying_uncached_spec / C05_registry_transparent_*: the walk "
+    "that answers a lookup runs over that `ro` with the current registration data; C04_chain / C04_most_general_lookup: the first registry of `ro` that answers wins; "
+    "C03_ro_eq_c3 / roFull_valid relate `ro` to C3. The model (both flavours) is compared with both twins on every run — layered registry DAGs with diamonds, the `ro` of "
+    "every descendant after every re-basing, a world stream with specification changes between a re-basing and the next lookup — and every `ro` and answer is judged "
+    "against C3 of the current base graph.",
+    "Guards: G-acyclic with the size bound the model's recursion fuel stands for; a new registry is new (each shown necessary by a kernel-checked counterexample). The "
+    "specification graph is static in the registry model.",
+    "Lean 4 proof (history invariants of both flavours: cascade reachability / generation snapshots) + differential correspondence + flat-specification oracle + never-queried-twin stream", "6/C06")
+
+add("C10",
+    "PARTIAL. Proved: twin theorems — the C decision logic is modelled separately from the Python one, statement by statement, and proved equal: C12_twin / c_eq_py "
+    "(IB_richcompare = the Python comparison, all six operators, all operands with string names), C14_twin / callC_eq_callPy (IB__call__ / IB__adapt__ incl. the "
+    "_CALL_CUSTOM_ADAPT dispatch = InterfaceBase.__call__), and (ZI/SpecTwin.lean, ZI/Props/C10.lean) C10_providedBy_twin, C10_getObjectSpecification_twin, "
+    "C10_implementedBy_twin, C10_sbProvidedBy_twin: providedBy / getObjectSpecification / implementedBy (C fast path in front of the Python function) return the same "
+    "object or raise the same kind of exception at the same probe on EVERY view of the queried object — every outcome (value, AttributeError, another exception) of "
+    "every attribute probe the code performs (__providedBy__, its `extends`, __provides__, __class__, the class's __provides__, __dict__, __implemented__, the builtin "
+    "table). C10_providedBy_twin_pinned / C10_providedBy_pinned_diverges: the pinned C providedBy agreed only when __class__ was available and no probe raised anything "
+    "but AttributeError; the two divergences were replayed on the real code and repaired (/repo d3bd293). Tie of these twins: the `spectwin` stream builds REAL objects "
+    "of every shape the code distinguishes (product of storage kind x __providedBy__ kind x __provides__ kind x class __provides__ kind x __class__ availability x "
+    "direct declaration; classes of every declaration style, builtins, super proxies, callables), probes their view with plain getattr, and requires each "
+    "implementation to answer as its own twin model. Every other check ties each twin to its own implementation mode. This check also compares the two "
+    "implementations DIRECTLY on the operation streams of eight layers, on the spectwin objects and on seeded odd-input API programs (results, exception types, "
+    "subsequent behaviour).",
+    "stated_not_proved: equality of the remaining twin pairs (the specification descriptors' __get__, LookupBase / VerifyingBase entry points) — covered by "
+    "differential execution only; nothing about the C code's conformance to its modelled logic beyond the correspondence, or about memory (C11), is a theorem. Known "
+    "findings eq-foreign-nonstr-name and garbage-provides-exception-type. Old-style `__implemented__ = ...` assignments and arguments of the wrong kind (a non-interface "
+    "as `provided`, a list as lookup1's single `required`) are outside the generated programs.",
+    "Lean 4 proof (partial: twin equalities for comparison, adaptation and the declaration queries) + view-probing correspondence on real objects + direct C-vs-Python differential execution", "6/C10")
